@@ -437,6 +437,13 @@ Explained(a, b, L, F) ==
   /\ a.ex # b.ex => KF_C15_2(a, b, L)
   /\ a.meta # b.meta => MetaDropped(a, b, L, F)
 
+\* the checkpoint's metadata record holds entries of two refs of one label set: their order decides which
+\* metadata the series has after the replay (the harness repeats such histories: Go map order was random)
+MetaDup(cpEs, L) == \E i, j \in 1..Len(cpEs) :
+                      /\ cpEs[i].k = "M" /\ cpEs[j].k = "M" /\ cpEs[i].ref # cpEs[j].ref /\ cpEs[i].v # cpEs[j].v
+                      /\ \E x, y \in 1..Len(L) : /\ L[x].k = "S" /\ L[y].k = "S" /\ L[x].lab = L[y].lab
+                                                  /\ L[x].ref = cpEs[i].ref /\ L[y].ref = cpEs[j].ref
+
 RefClosedOrKF == RefClosed \/ KF_C15_1(Log)
 ReplayEquivOrKF == reused \/ ReplayEquiv \/ Explained(CTrunc, CWhole, Log, full)
 \* a ref that still occurs in the (untruncated) log is never issued again
@@ -467,6 +474,7 @@ SegEntries == [i \in 1..Len(segs') |-> [seg |-> first' + i - 1, es |-> Flat(segs
 Final == LET rt == Replay(Log', T')  rf == Replay(full', T')  ign == rt.racy \cup rf.racy
              a == Content(rt, T', ign)  b == Content(rf, T', ign) IN
          [T |-> T', tmax |-> MaxT + 3, want |-> b, got |-> a, racy |-> ign, unk |-> rt.unk,
+          mdup |-> MetaDup(Flat(cp'.recs), Log'),
           kf |-> Explain(a, b, Log', full', reused'),
           cp |-> [idx |-> cp'.idx, es |-> Flat(cp'.recs)], segs |-> SegEntries,
           orph |-> [i \in 1..Cardinality(Orphans(Log')) |-> Log'[SeqOfSet(Orphans(Log'))[i]]]]
@@ -489,7 +497,7 @@ Class ==
       \* several refs in the checkpoint's metadata record (their order matters to the replay)
       mrefs == Cardinality({cpE[i].ref : i \in {j \in 1..Len(cpE) : cpE[j].k = "M"}})
   IN IF st.a = "Truncate" THEN <<"Truncate", st.ckpt, st.ord, orph, dup, DOMAIN exp' # {}, Cardinality(hs'),
-                                 kexp, edge, dep, kinds, nmeta, xlost, mrefs, hs' = hs>>
+                                 kexp, edge, dep, kinds, nmeta, xlost, mrefs, MetaDup(cpE, LogP), hs' = hs>>
      ELSE IF st.a = "Restart" THEN <<"Restart", st.unk > 0, orph, dup, DOMAIN exp' # {}, Cardinality(hs'), cp.idx >= 0, dep, kinds>>
      ELSE IF st.a = "Scrape" THEN <<"Scrape", Len(st.labs), st.cut, dup, orph, cp.idx >= 0, lastRef' - lastRef, reused'>>
      ELSE <<st.a, orph, dup, cp.idx >= 0>>
@@ -505,7 +513,7 @@ Emit ==
 \* simulation: print each walk once, at its End step
 EmitWalk == nops <= MaxOps \/
             PrintT("@@TR " \o ToJson([hist |-> hist,
-                     fin |-> [T |-> T, tmax |-> MaxT + 3, want |-> CWhole, got |-> CTrunc, racy |-> Racy, unk |-> Replay(Log, T).unk, kf |-> Explain(CTrunc, CWhole, Log, full, reused),
+                     fin |-> [T |-> T, tmax |-> MaxT + 3, want |-> CWhole, got |-> CTrunc, racy |-> Racy, mdup |-> MetaDup(Flat(cp.recs), Log), unk |-> Replay(Log, T).unk, kf |-> Explain(CTrunc, CWhole, Log, full, reused),
                               cp |-> [idx |-> cp.idx, es |-> Flat(cp.recs)],
                               segs |-> [i \in 1..Len(segs) |-> [seg |-> first + i - 1, es |-> Flat(segs[i])]],
                               orph |-> [i \in 1..Cardinality(Orphans(Log)) |-> Log[SeqOfSet(Orphans(Log))[i]]]]]))
